@@ -15,6 +15,7 @@ from C10 import canon as _c10canon
 
 
 def gen(rng, tier):
+    yield from gen_recs(rng, tier)
     n = 250 if tier == 'quick' else 6000
     nid = 0
     for _ in range(n):
@@ -47,6 +48,35 @@ def gen(rng, tier):
         keys = [t[0] for t in items]
         tie = len(set(keys)) < len(keys)
         yield Case(sx.dump(['xsort', cs, threads, comp, rev, ['items'] + items]), nruns >= 2 and (tie or big), 'c%s' % comp)
+
+
+def gen_recs(rng, tier):
+    """the crate's own record types (optional and float fields, long names) ordered by BEDLike::compare"""
+    import textgen as T
+    n = 80 if tier == 'quick' else 2500
+    for _ in range(n):
+        t = rng.choice(T.TYPES)
+        L = rng.choice([0, 1, 2, 5, 9, 20])
+        recs = []
+        for i in range(L):
+            r = T.rand_record(rng, t)
+            # few distinct keys so that ties under compare are common
+            r[0] = sx.hexs(rng.choice([b'chr1', b'chr10', b'chr2']))
+            r[1] = rng.choice([0, 5, 5, 7, 2**40])
+            r[2] = rng.choice([5, 9, 9, 2**41])
+            if t != 'gr' and rng.random() < 0.1 and len(r) > 3 and r[3] != 'none' and t not in ('bgi', 'bgf'):
+                r[3] = sx.hexs(b'n' * rng.choice([8200, 30000]))
+            recs.append(r)
+        keys = sorted(set((bytes.fromhex(r[0]), r[1], r[2]) for r in recs))
+        rank = {k: i for i, k in enumerate(keys)}
+        cs = rng.choice([0, 1, 2, 3, max(0, L - 1), L, L + 1, 'default'])
+        items = [[rank[(bytes.fromhex(r[0]), r[1], r[2])], 5000 + i] + r for i, r in enumerate(recs)]
+        nruns = 1 if cs == 'default' or (isinstance(cs, int) and cs >= L) else (L if cs in (0, 1) else -(-L // cs))
+        yield Case(sx.dump(['xsortrec', t, cs, rng.choice([1, 2, 'default']), rng.choice(['none', 1, 4, 16]), ['recs'] + items]),
+                   nruns >= 2 and len(keys) < L, 'rec-' + t)
+
+
+_gen_kid = None
 
 
 def canon(case, out):
